@@ -49,6 +49,7 @@ var Profiles = map[string]func() Profile{
 			int(KRegFilter), 4, int(KUnregFilter), 2)
 		p.RelPct = 60
 		p.QuerySlots = 6
+		p.LeakPct = 10
 		p.FilterSlots = 5
 		p.HotComps = 7
 		return p
@@ -102,6 +103,7 @@ var Profiles = map[string]func() Profile{
 			int(KOpenQuery), 22, int(KStepQuery), 14, int(KCloseQuery), 10, int(KMisuse), 10, int(KEmit), 2, int(KStats), 1, int(KRemoveEntities), 1, int(KReset), 2,
 			int(KAddBatch), 3, int(KRemoveBatch), 2, int(KRegObs), 5, int(KUnregObs), 3, int(KSetRelBatch), 4, int(KExchangeBatch), 2, int(KCopy), 1, int(KShrink), 1)
 		p.QuerySlots = 64
+		p.LeakPct = 35
 		p.FilterSlots = 4
 		p.MaxAlive = 40
 		p.ObsSlots = 4
@@ -137,6 +139,7 @@ var Profiles = map[string]func() Profile{
 		p.MaxComps = 4
 		p.ProbePct = 100
 		p.QuerySlots = 2
+		p.LeakPct = 25
 		p.TypedPct = 35
 		return p
 	},
